@@ -394,6 +394,9 @@ def finish(res, level="proof", checker_cmd="", extra_cov=None):
         else:
             real.append(v)
     lines = []
+    import glob
+    for old in glob.glob(os.path.join(ROOT, "replays", pid + "-*.json")):
+        os.remove(old)                 # replays of earlier runs of this check are stale
     for v in real:
         blob = json.dumps(v["replay"], sort_keys=True, default=str)
         h = hashlib.sha1(blob.encode()).hexdigest()[:10]
